@@ -62,12 +62,9 @@ def _attr_history_run(pid, tier, seed, kinds, count_q, count_t, pred, rule, cfg_
         cfg = cfg_gen(rng) if cfg_gen else {}
         h = H.gen_history(rng, n, max_len=_sizes(tier, *max_len), kinds=kinds)
         cases.append({"rules": rules, "config": cfg, "history": h, "attr": True, "pipe": pipe, "sym": sym})
-    corpus = os.path.join(VERIF, "corpus", pid + ".jsonl")
-    pre = []
-    if os.path.exists(corpus):
-        pre = [json.loads(l) for l in open(corpus) if l.strip()]
-        for c in pre:
-            c["history"] = [tuple(o) for o in c["history"]]; c["attr"] = True
+    pre = load_corpus(pid)
+    for c in pre:
+        c["attr"] = True; c.setdefault("pipe", pipe); c.setdefault("sym", sym)
     for c in cases:
         c["history"] = list(c["history"]) + list(final_ops)
     cases = pmap(P._fix_worker, pre + cases)
